@@ -61,6 +61,24 @@ def do_call(ex, node, st):
             return list_method(ex, recv, f, node, st)
         if isinstance(recv.kind, KDict):
             return dict_method(ex, recv, f, node, st)
+        if isinstance(recv.kind, KSet):
+            args, _ = eval_args(ex, node, st)
+            if f.attr == "add":
+                ns, sc = set_add(recv, args[0])
+                ex.check(st, "store-kind", sc, node)
+                ex.assign(f.value, ns, st, node)
+                return vnone()
+            if f.attr == "update" and isinstance(args[0].kind, KList) and len(flat(recv.kind.elem)) == 1:
+                # s.update(list): s | {l[q] : q < len(l)}
+                l = args[0]
+                xv = z3.Const(uid("su"), flat(recv.kind.elem)[0])
+                q = z3.Int(uid("sq"))
+                e, _ = coerce(list_get(l, q), recv.kind.elem)
+                mem = z3.Exists([q], and_(q >= 0, q < list_len(l), e.terms[0] == xv))
+                ns = Val(recv.kind, [z3.Lambda([xv], z3.Or(z3.Select(recv.terms[0], xv), mem))])
+                ex.assign(f.value, ns, st, node)
+                return vnone()
+            raise OutOfSubset("set method " + f.attr)
         if isinstance(recv.kind, (KFloat, KReal)) and f.attr == "is_integer":
             nan, x = to_float(recv)
             return vbool(and_(not_(nan), z3.ToReal(floor_of(ex, x)) == x))
@@ -372,6 +390,19 @@ def call_builtin(ex, name, node, st):
     if name == "progressbar.progressbar":
         ex.ctx.dropped.append("%s:%d progressbar.progressbar(x) -> x (A-PB)" % (ex.fi.path, node.lineno))
         return args[0]
+    if name == "set" and not args:
+        return Val(NONE, [], py="emptyset")
+    if name == "list" and args and isinstance(args[0].kind, KSet) and len(flat(args[0].kind.elem)) == 1:
+        # list(s): some list holding exactly the members of s (trusted model; order unspecified)
+        sv = args[0]
+        L = fresh(KList(sv.kind.elem), "setlist")
+        q, xv = z3.Int(uid("lq")), z3.Const(uid("lx"), flat(sv.kind.elem)[0])
+        ex.ctx.hyps.append(L.terms[0] >= 0)
+        ex.ctx.hyps.append(z3.ForAll([q], implies(and_(q >= 0, q < L.terms[0]), z3.Select(sv.terms[0], z3.Select(L.terms[1], q)))))
+        w = z3.Function(uid("setpos"), flat(sv.kind.elem)[0], z3.IntSort())
+        ex.ctx.hyps.append(z3.ForAll([xv], implies(z3.Select(sv.terms[0], xv),
+                                                   and_(w(xv) >= 0, w(xv) < L.terms[0], z3.Select(L.terms[1], w(xv)) == xv))))
+        return L
     if name == "list":
         if not args:
             return Val(KList(NONE), [z3.IntVal(0)], py="emptylist")
